@@ -68,6 +68,9 @@ for _pid, _title, _what in [
   ("C16", "normal form and termination", "independent normal-form walker, upstream check_normalized, 10 s alarm / RecursionError on guarded recursion"),
   ("C11", "termination on recursive inputs", "no RecursionError / 10 s alarm on well-formed productive-or-acyclic graphs (stream G, also RecursionError <-> OutOfFuel in the model correspondence), on recursive grammars whose non-terminals derive finite strings, and on guarded recursive JSON Schemas that accept a finite instance; Coq: C11_loop_rounds, C11_entries_bounded"),
   ("C07", "XML documents validate / do not validate", "xmlschema validates every document labelled valid and rejects every document labelled invalid (schemas without emptiable choice branches), numeric draws forced to both ends of their range; the Coq model of xml_schema/parse.py is not written yet, so this check is currently oracle-only"),
+  ("C10", "OpenAPI request labels", "every request of generate_all is taken apart (applied parameter / body leaves), each carried raw value judged by jsonschema against its parameter / body schema, required parts checked, method and placeholder-free path checked, and compared with the label; the request graph is an instance of the C03 theorem (its well-formedness is checked by the model's wfb on the dumped node table)"),
+  ("C13", "history independence", "random histories of parse / normalize / generate_paths / execute calls followed by a probe, compared with the probe run first in a fresh interpreter (same hash seed and random seed); inputs deep-compared before / after; repeated execute compared"),
+  ("C17", "own exception for unsupported constructs", "supported inputs with one legal out-of-dialect construct planted (45 JSON constructs, 43 regex patterns, 23 XSD insertions, 15 grammar dictionaries, 17 OpenAPI variants); the outcome must be a graph or an exception derived from FencesException; Coq: error-class lemmas of the models"),
   ("C08", "grammar samples derivable", "chart-based derivability of every sample, occurrence-wise use of every terminal and range end"),
 ]:
     CLAIMED[_pid] = dict(cat="other", tech="model-implementation correspondence of executable Coq models + independent oracle; Coq theorems in progress",
